@@ -23,7 +23,7 @@ def closeAll : List Block → M Unit
     (the blocks `l` are closed top first, only the top may be a leaf; the Paragraph / setext blocks `K` that stay open are
     guarded; a closing setext heading's paragraph is not an open block). -/
 theorem closeList_eq_closeAll {src : Bytes} : ∀ (l K : List Block) (s : St), CInv src s (l ++ K) → s.r.source = src →
-    (∀ b ∈ l.tail, b.bp.isContainer = true) → (∀ g ∈ K, PS g → Guard s l g) →
+    (∀ b ∈ l.tail, b.bp.isContainer = true) → (∀ g ∈ K, PSb g → Guard s l g) →
     ((∃ b ∈ l, b.bp = .setext) → ∀ t, s.pc.tmpPara = some t → ∀ g ∈ l ++ K, g.bp = .paragraph → g.node ≠ t) →
     closeList l s = closeAll l s := by
   intro l
@@ -49,7 +49,7 @@ theorem closeList_eq_closeAll {src : Bytes} : ∀ (l K : List Block) (s : St), C
             exact ⟨q, q1, q2, q3, fun L hL => q4 L (by
               simp only [List.mem_singleton] at hL; rw [hL]; exact List.mem_cons_self ..)⟩)
         (fun hbs t ht g hg hgp => hsx ⟨b, List.mem_cons_self .., hbs⟩ t ht g (by simpa using hg) hgp) hb
-      have hG1 : ∀ g ∈ K, PS g → Guard s1 rest g := fun g hg hp =>
+      have hG1 : ∀ g ∈ K, PSb g → Guard s1 rest g := fun g hg hp =>
         (hG g hg hp).step hs1 (List.mem_append_right _ hg) hp (fun L hL => List.mem_cons_of_mem _ hL)
       have hsx1 : (∃ b' ∈ rest, b'.bp = .setext) → ∀ t, s1.pc.tmpPara = some t → ∀ g ∈ rest ++ K, g.bp = .paragraph →
           g.node ≠ t := by
